@@ -48,7 +48,7 @@ def _drive(uris, outcomes):
     def fake_request(method, url, **kw):
         hits[-1].append(url)
         if not script:
-            raise RuntimeError('more HTTP calls than scripted')
+            return _Resp('200')    # an HTTP call beyond the scripted outcome: recorded in hits, judged by _verdict (wrong number of calls / wrong node)
         kind = script.pop(0)
         if kind == 'conn':
             raise requests.exceptions.ConnectionError('refused')
